@@ -248,6 +248,8 @@ def gen_script(rng, max_agents=5, max_t=8, allow_big=False):
         k = rng.randint(1, n)
         noms.append(rng.sample(range(n), k))
     sc = {"n": n, "learning": learning, "doneAt": done_at, "finishAt": finish, "noms": noms}
+    if allow_big and rng.random() < 0.04:
+        sc["unit"] = rng.choice([2 ** 53 + 1, 2 ** 54 + 3, 10 ** 15 + 7])      # rewards a float cannot hold exactly
     if n >= 11 and rng.random() < 0.5:
         sc["plainIds"] = True                 # agent0 .. agent13: agent1 is a substring of agent10, agent10 < agent2
     if rng.random() < 0.3:
